@@ -12,7 +12,7 @@ import (
 
 func init() {
 	Register(&Rule{ID: "R-POOL-5", Props: []string{"C12", "C13", "C14", "C04"}, Floor: 5,
-		Doc: "an object is returned to its sync.Pool at most once: for every call of (*sync.Pool).Put, or of a csvq wrapper that passes its parameter on to it (PutComparisonkeysBuf, the scope pools …; value.Discard is decided by R-POOL-2), no second return of the same object is reachable from it — a deferred return counts at every exit, so a deferred and an explicit return of one object in one function is a double return. An object that sits in a pool twice is handed to two goroutines at once: the key buffers of GROUP BY / DISTINCT / PARTITION BY would be filled by several workers simultaneously (results depend on --cpu and the schedule)",
+		Doc:      "an object is returned to its sync.Pool at most once: for every call of (*sync.Pool).Put, or of a csvq wrapper that passes its parameter on to it (PutComparisonkeysBuf, the scope pools …; value.Discard is decided by R-POOL-2), no second return of the same object is reachable from it — a deferred return counts at every exit, so a deferred and an explicit return of one object in one function is a double return. An object that sits in a pool twice is handed to two goroutines at once: the key buffers of GROUP BY / DISTINCT / PARTITION BY would be filled by several workers simultaneously (results depend on --cpu and the schedule)",
 		Controls: []string{"CtlBufferPutTwice"},
 		Run:      rulePool5})
 }
